@@ -30,5 +30,5 @@ RULES = [
     ("P14", pool2.P14, ["default"]),
     ("P16", pool2.P16, ["default"]),
     # a waiter is released by cancel_connection exactly when it is tagged dependent: the tag must be "an attempt was in flight"
-    ("P8d", pool2.only(pool2.P8, "dependent-flag", "dependent-no-dial", label="dependent"), ["default"]),
+    ("P8d", pool2.only(pool2.P8, "marker-set", "registrations-distinguishable", "appends-at-back", label="dependent"), ["default"]),
 ]
